@@ -117,6 +117,10 @@ impl Scenario for SqlScenario {
                 guard += 1;
             }
         }
+        if self.dynamic_filters && self.family == Family::Join && rng.chance(1, 6) {
+            // a plan that is executed several times with different build sides (one execution per iteration)
+            q = json!({"t": "recursive", "c": rng.below(700) as i64 - 300, "depth": rng.range(1, 3), "dedup": rng.chance(1, 3)});
+        }
         if self.ordered_agg {
             let t = *rng.pick(&["groupby", "groupby", "groupby_filter", "groupby_ord", "having", "groupby_str", "distinct"]);
             let keys = if t == "groupby_str" { *rng.pick(&["k", "ks"]) } else { *rng.pick(&["ks", "ks", "k"]) };
@@ -264,6 +268,11 @@ impl Scenario for SqlScenario {
                 "datafusion.optimizer.enable_aggregate_dynamic_filter_pushdown",
             ] {
                 knobs[k] = json!(true);
+            }
+            // eager probing (BufferExec above the probe side) in half of the runs: the probe scan then reads
+            // the filter before the build side has published it
+            if rng.chance(1, 2) {
+                knobs["datafusion.execution.hash_join_buffering_capacity"] = json!(*rng.pick(&[1u64, 100, 4096, 1 << 20]));
             }
             // bounds / IN-list / hash-lookup strategies of the join filter
             knobs["datafusion.optimizer.hash_join_inlist_pushdown_max_size"] = json!(*rng.pick(&[0u64, 64, 131072]));
